@@ -603,6 +603,33 @@ func closeWakeRules(r *Run, prefix string) {
 				}
 				return !isNilConst(argVal(callCommon(i), 0))
 			}
+			// what the woken call returns is the close error: ErrConnClosed for a flusher; for a reader ErrEOF when the peer closed
+			// (an error that also matches ErrConnClosed) and ErrConnClosed when the user did
+			for _, tr := range findIns(c.fn, isTrig) {
+				arg := argVal(callCommon(tr), 0)
+				want := []string{"ErrConnClosed"}
+				if t.name == "read" && c.who == ro.whoPoller {
+					want = []string{"ErrEOF"}
+				}
+				okc := false
+				got := "not an Exception(...) value"
+				if ai, isI := arg.(ssa.Instruction); isI {
+					if mi, isMI := ai.(*ssa.MakeInterface); isMI {
+						if xi, ok2 := mi.X.(ssa.Instruction); ok2 {
+							ai = xi
+						}
+					}
+					if n, ok2 := exceptionErrno(w, ai); ok2 {
+						got = fmt.Sprintf("errno %d", n)
+						for _, wn := range want {
+							if n == w.ConstInt(wn) {
+								okc = true
+							}
+						}
+					}
+				}
+				r.ob(prefix+":close-wake-error-"+t.name+":"+c.fn.Name(), "the error pushed to a parked "+t.name+" call by the close path is the close error ("+strings.Join(want, "/")+"): a Flush or read that was blocked when the connection closed reports that, not a timeout or another kind", c.fn, tr, okc, got, false)
+			}
 			r.mustPass(prefix+":close-wakes-"+t.name+":"+c.fn.Name(), "after a successful closeBy the closer pushes a non-nil error on the "+t.name+" trigger on every path (a blocked reader / flusher is woken)", c.fn, nil, starts, isTrig, nil, nil, "trigger"+t.name+"(err) on every path")
 			// and before the callbacks recycle the buffers
 			for _, cb := range findIns(c.fn, func(i ssa.Instruction) bool { return isCall(i, ro.closeCallback) }) {
